@@ -200,8 +200,12 @@ def main(argv=None):
     ev = {"property_id": pid, "tier": args.tier, "seed": seed, "level": level, "coverage": coverage,
           "assumptions": getattr(mod, "ASSUMPTIONS", []), "wall_s": round(time.time() - t0, 2),
           "violations": violations}
-    os.makedirs(os.path.join(VERIF, "evidence"), exist_ok=True)
-    with open(os.path.join(VERIF, "evidence", f"{pid}.json"), "w") as f:
+    ev_dir = os.path.join(VERIF, "evidence")
+    if os.path.realpath(common.REPO) != "/repo":     # evaluating a scratch copy: never touch the real evidence
+        ev_dir = os.path.join(VERIF, ".work", "evidence-scratch")
+        ev["assumptions"] = list(ev["assumptions"]) + [f"run against VERIF_REPO={common.REPO}, not /repo"]
+    os.makedirs(ev_dir, exist_ok=True)
+    with open(os.path.join(ev_dir, f"{pid}.json"), "w") as f:
         json.dump(ev, f, indent=1, default=str)
     ctx.log(f"done: {ctx.evaluations} evaluations, {len(ctx.nontrivial)} distinct non-trivial, "
             f"{len(ctx.failures)} failing, {violations} violation line(s)")
